@@ -460,3 +460,28 @@ kani("models::lookup_noncontiguous_fast_counts", ["C19", "C20", "C10"], kind="bo
      text="Ok iff #symbols == #probabilities; every quantile of an accepted model is answered in bounds")
 kani("models::fast_f32_n2_p8", ["C19", "C03", "C20"], kind="bounded", bound="2 f32 entries (all bit patterns)", timeout=1200,
      fns=[M + "categorical.rs::fast_quantized_cdf", M + "categorical/contiguous.rs::ContiguousCategoricalEntropyModel::from_floating_point_probabilities_fast"])
+
+# ---------------- Verus unit: chain coder decoding step (chain.rs)
+_CH_DEC = "Decode<PRECISION>\n    for ChainCoder<Word, State, CompressedBackend, RemaindersBackend, PRECISION>"
+verus_unit(
+    name="chain_dec", template="chain_dec_unit.rs.tmpl",
+    widths=["u8_u16", "u8_u32", "u16_u32", "u16_u64", "u32_u64"],
+    slots={
+        "FLUSH": dict(file="src/stream/chain.rs", anchor="fn flush_remainders_head", fn="flush_remainders_head", extra=[
+            (r"\.write\(self\.heads\.remainders\.as_\(\)\)\s*\.map_err\(\|err\| CoderError::Backend\(BackendError::Remainders\(err\)\)\)\?", ".write(self.heads.remainders.s2w()).ber()?", 1),
+        ]),
+        "DECODE": dict(file="src/stream/chain.rs", anchor=_CH_DEC, fn="decode_symbol", extra=[
+            (r"\.read\(\)\s*\.map_err\(BackendError::Compressed\)\?\s*\.ok_or\(CoderError::Frontend\(\s*DecoderFrontendError::OutOfCompressedData,?\s*\)\)\?", ".read().bec()?.ok_or_out_of_data()?", 1),
+            (r"Word::NonZero::new_unchecked\(", "nzw_unchecked(", 2),
+            (r"quantile\.as_\(\);", "quantile.w2p();", 1),
+            (r"self\.flush_remainders_head\(\)\?", "flush_remainders_head(self)?", 1),
+            # ghost-only insertion at a recorded anchor: lemma call after the model lookup
+            (r"(model\.quantile_function\(quantile\);)", r"\1\n        proof { lemma_chain_step(self.heads.remainders, quantile, left_sided_cumulative, probability, PRECISION); }", 1),
+        ]),
+    },
+    obligations={
+        "flush_remainders_head": dict(own=["C13", "C20"], dep=["C14", "C10"], text="ensures: pushes the low word of the remainders head and shifts it; failure leaves everything unchanged"),
+        "decode_symbol": dict(own=["C14", "C13", "C10", "C20"], dep=[], kani_twin="chain::u8_u16_p5::dec_step",
+                              text="ensures: out-of-data iff a word is needed and none is left (coder unchanged); else symbol = model(next P-bit chunk), compressed side = old minus the chunk (independent of model and remainders), remainders step with flush iff >= 2^(sb-P), head invariants kept [all P <= Word bits]"),
+    },
+)
